@@ -17,9 +17,12 @@ package fclient
 //     host with at least one permitted address when lists are configured.
 
 import (
+	"bufio"
 	"context"
 	"errors"
 	"fmt"
+	"io"
+	"net"
 	"net/http"
 	"net/netip"
 	"sort"
@@ -136,7 +139,7 @@ type c16Dial struct {
 	Via              string
 }
 
-var errC16NoConnect = errors.New("c16: observation only, no connection is made")
+var c16ErrNoConnect = errors.New("c16: observation only, no connection is made")
 
 func c16SplitDest(dest string) (host, port string) {
 	if strings.HasPrefix(dest, "[") {
@@ -224,13 +227,12 @@ func c16TripCheck(ctx *vfCtx, c c16TripCase) {
 			mu.Lock()
 			dials = append(dials, dl)
 			mu.Unlock()
-			return errC16NoConnect
+			return c16ErrNoConnect
 		}
 	}
 
 	var tr *destinationTripper
 	var req *http.Request
-	origHost := ""
 	var rtErr error
 	if vfCatch(ctx, "C16/tripper", func() {
 		var cache *DNSCache
@@ -249,7 +251,6 @@ func c16TripCheck(ctx *vfCtx, c c16TripCase) {
 			req = nil
 			return
 		}
-		origHost = req.Host
 		resp, err := tr.RoundTrip(req)
 		if resp != nil {
 			_ = resp.Body.Close()
@@ -345,6 +346,7 @@ func c16TripCheck(ctx *vfCtx, c c16TripCase) {
 	type want struct {
 		must, may map[string]bool
 		host, sni string
+		first     []string // destinations of the first SRV priority group (or the only target)
 	}
 	build := func(alt []c16Target, extra map[string]bool) want {
 		w := want{must: map[string]bool{}, may: map[string]bool{}}
@@ -353,6 +355,9 @@ func c16TripCheck(ctx *vfCtx, c c16TripCase) {
 		}
 		for _, tg := range alt {
 			w.host, w.sni = tg.Host, tg.SNI
+			if tg.Prio == alt[0].Prio {
+				w.first = append(w.first, tg.Dest)
+			}
 			h, p := c16SplitDest(tg.Dest)
 			for _, ip := range ipsOf(strings.TrimSuffix(h, ".")) {
 				a := netip.AddrPortFrom(ip, 0).Addr()
@@ -373,6 +378,7 @@ func c16TripCheck(ctx *vfCtx, c c16TripCase) {
 	for _, alt := range exp.Alts {
 		wants = append(wants, build(alt, nil))
 	}
+	wants0 := wants // the expectation with the well-known fetch served by http.DefaultTransport
 	if len(httpLog) == 0 && exp.WKReq > 0 {
 		// the well-known fetch did not go through http.DefaultTransport: then it went through the
 		// observed dialer (port 443 of the server name), was refused like every dial, and resolution
@@ -445,16 +451,103 @@ func c16TripCheck(ctx *vfCtx, c c16TripCase) {
 		ctx.Fail("C16/tripper/sni/"+exp.Step, "RoundTrip to %q (wk=%+v): TLS server names used %q, want [%q]", c.Name, c.WK, snis, matched.sni)
 		return
 	}
-	// (4) Host header left on the request
-	switch {
-	case req.Host == matched.host:
-	case req.Host == origHost:
-		ctx.Unjudged("Host header not observable on the caller's request")
-	default:
-		ctx.Fail("C16/tripper/host/"+exp.Step, "RoundTrip to %q (wk=%+v): Host header %q, want %q", c.Name, c.WK, req.Host, matched.host)
+	// (4) Host header and first destination on the wire: a second round trip whose transport for
+	// the expected TLS server name talks to an in-memory HTTP/1.1 peer (every other dial refused).
+	var wire c16Wire
+	var rt2Err error
+	status := 0
+	if vfCatch(ctx, "C16/tripper", func() {
+		tr2 := newDestinationTripper(true, nil, false, true, nil, nil)
+		tr2.dialer.ControlContext = func(context.Context, string, string, syscall.RawConn) error { return c16ErrNoConnect }
+		tr2.dialer.Control = nil
+		tr2.transportsMutex.Lock()
+		for _, w := range wants0 {
+			if len(w.first) > 0 {
+				tr2.transports[w.sni] = &destinationTripperTransport{Transport: &http.Transport{DisableKeepAlives: true, DialTLSContext: wire.dial, DialContext: wire.refuse}}
+			}
+		}
+		tr2.transportsMutex.Unlock()
+		req2, err := http.NewRequest("GET", "matrix://"+c.Name+"/_matrix/federation/v1/version", nil)
+		if err != nil {
+			rt2Err = err
+			return
+		}
+		resp, err := tr2.RoundTrip(req2)
+		if resp != nil {
+			status = resp.StatusCode
+			_ = resp.Body.Close()
+		}
+		rt2Err = err
+	}) {
+		wire.wg.Wait()
+		return
+	}
+	wire.wg.Wait()
+	wire.mu.Lock()
+	defer wire.mu.Unlock()
+	if rt2Err != nil || status != 200 || len(wire.dests) == 0 || len(wire.hosts) == 0 {
+		ctx.Fail("C16/tripper/wire/"+exp.Step, "RoundTrip to %q (wk=%+v) with a reachable peer for TLS server name %q: err=%v status=%d dials=%v", c.Name, c.WK, wants0[0].sni, rt2Err, status, wire.dests)
+		return
+	}
+	ctx.Class("wire:request-seen")
+	var firsts []string
+	okDest, okHost := false, false
+	for _, w := range wants0 {
+		for _, d := range w.first {
+			firsts = append(firsts, d)
+			if c16NormDest(d) == c16NormDest(wire.dests[0]) {
+				okDest = true
+				okHost = okHost || wire.hosts[0] == w.host
+			}
+		}
+	}
+	if !okDest {
+		ctx.Fail("C16/tripper/first-destination/"+exp.Step, "RoundTrip to %q (wk=%+v): first connection goes to %q, want one of %q", c.Name, c.WK, wire.dests[0], firsts)
+		return
+	}
+	if !okHost {
+		ctx.Fail("C16/tripper/host/"+exp.Step, "RoundTrip to %q (wk=%+v): Host header on the wire %q, want %q", c.Name, c.WK, wire.hosts[0], wants0[0].host)
+		return
+	}
+	if wire.paths[0] != "/_matrix/federation/v1/version" {
+		ctx.Fail("C16/tripper/wire/path", "RoundTrip to %q: request path %q", c.Name, wire.paths[0])
 	}
 }
 
+// c16Wire is the in-memory peer of the second round trip.
+type c16Wire struct {
+	mu                  sync.Mutex
+	wg                  sync.WaitGroup
+	dests, hosts, paths []string
+}
+
+func (w *c16Wire) refuse(context.Context, string, string) (net.Conn, error) {
+	return nil, c16ErrNoConnect
+}
+
+func (w *c16Wire) dial(_ context.Context, _ string, addr string) (net.Conn, error) {
+	client, server := net.Pipe()
+	_ = server.SetDeadline(time.Now().Add(10 * time.Second))
+	w.mu.Lock()
+	w.dests = append(w.dests, addr)
+	w.mu.Unlock()
+	w.wg.Add(1)
+	go func() {
+		defer w.wg.Done()
+		defer server.Close()
+		r, err := http.ReadRequest(bufio.NewReader(server))
+		if err != nil {
+			return
+		}
+		w.mu.Lock()
+		w.hosts = append(w.hosts, r.Host)
+		w.paths = append(w.paths, r.URL.Path)
+		w.mu.Unlock()
+		_, _ = io.WriteString(server, "HTTP/1.1 200 OK\r\nContent-Type: application/json\r\nContent-Length: 2\r\nConnection: close\r\n\r\n{}")
+	}()
+	return client, nil
+}
+
 func init() {
-	vfRapid("C16/tripper", c16TripRule, 2500, 48000, 8, c16TripGen, c16TripCheck)
+	vfRapid("C16/tripper", c16TripRule, 2500, 120000, 8, c16TripGen, c16TripCheck)
 }
